@@ -7,13 +7,16 @@ META = {
         "08.a year pillar of LunarYear / SixtyCycleYear y has index (y - 4) mod 60, every year -1..9999",
         "08.b LunarMonth::get_sixty_cycle: branch (index in year + 2) mod 12, stem by Five Tigers from the year stem, for every year and every index 0..12 (hence only legal year/month pairs on this route)",
         "08.c SixtyCycleYear::get_first_month is the Yin month with the Five-Tigers stem",
+        "08.d day view (SixtyCycleDay::from_solar_day): the year pillar is the civil year's from the Lichun DAY on and the previous year's before it; the month pillar is the Yin month's pillar advanced once per Jie passed since Lichun (floor of half the term distance); the day pillar is the lunar day's — for every date, Lichun day and term position (engine B; confirmed by a native scan of ten years)",
         "11.g SixtyCycleMonth::next(n): pillar +n mod 60, year = floor((12y + index + n)/12)",
     ],
-    "outside": ["WHEN the pillars switch: year pillar at the Lichun day / instant, month pillar at each Jie day / instant (SixtyCycleDay::from_solar_day, SixtyCycleHour::from_solar_time run the solar->lunar walk and the term search over real astronomical data)",
+    "outside": ["the instant-level view (SixtyCycleHour::from_solar_time: switching at the exact term instants)",
+                "that the lunar year of a civil date is the civil year or the one before, and that the date's term is the right one (C06) — taken as given by 08.d",
                 "agreement of the instant-level and day-level views"],
     "assumptions": [
         "engine B object model: axioms A-index, A-pillar (19.h), A-name (T60 + trusted LoopTyme::new), A-format; listed per kernel in the evidence",
         "struct invariants: LunarMonth.index_in_year in 0..12, years in -1..9999",
+        "08.d: days are day numbers with SolarDay order per C01; the first lunar month's pillar obeys Five Tigers (08.b); (x as f64 / 2.0).floor() = floor division by 2 (exact in f64)",
     ],
 }
 
@@ -26,4 +29,4 @@ def engine_b(tier, seed, scr):
     eng, err = engine(scr, "08.b/B/month-pillar", "08.b")
     if eng is None:
         return err
-    return [pillars.k_year_pillar(eng, "LunarYear"), pillars.k_year_pillar(eng, "SixtyCycleYear"), pillars.k_month_pillar(eng), pillars.k_first_month(eng), pillars.k_sixty_month_next(eng)]
+    return [pillars.k_year_pillar(eng, "LunarYear"), pillars.k_year_pillar(eng, "SixtyCycleYear"), pillars.k_month_pillar(eng), pillars.k_first_month(eng), pillars.k_sixty_month_next(eng), pillars.k_day_view(eng)]
